@@ -133,7 +133,9 @@ class MediaQuery(cssutils.util._NewBase):  # cssutils.util.Base):
                     name='media_type',
                     match=lambda t, v: t == PreDef.types.IDENT
                     and normalize(v) in self.MEDIA_TYPES,
-                    stopIfNoMoreMatch=True,
+                    # only a query inside a media list hands the following
+                    # token (e.g. ",") back to the list parser
+                    stopIfNoMoreMatch=self._partof,
                     toStore='media_type',
                 ),
                 Sequence(
